@@ -92,6 +92,7 @@ func runCase(c ringlab.ChurnCfg, rep *batch.Report) batch.CaseResult {
 	}
 	if res.JoinsOK+res.LeavesDone > 0 && acked > 0 {
 		out.Sig = res.EventSig
+		out.Sigs = append(out.Sigs, "overlaps:"+res.OverlapSig)
 	}
 	out.Sample = map[string]any{"cfg": c, "final_members": len(res.Live), "ops": len(res.Ops), "acked_writes": acked, "retryable_errors": retry, "reads_checked": reads, "joins_ok": res.JoinsOK, "leaves_done": res.LeavesDone, "first_ops": firstOps(res.Ops, 6)}
 	return out
@@ -112,7 +113,7 @@ func main() {
 	child.Register("cases", runCases)
 	child.Main()
 	r := ev.Start("C05", "exploration")
-	r.SetRule("same generator as C03 (independent seeds): executions of real rings (memory/AOF/SQLite) with single-writer clients and 1-3 churn goroutines; at quiescence (pointer oracle reached) every live node's RangeKeys(0,0) and ListKeys('') are read; a quarter of the executions also hold lease-only keys that expire (1 s TTL, real time) before a second churn phase moves their ranges; distinct+non-trivial = hash of the interleaving of membership hook events across nodes, for executions with at least one completed join/leave and one acknowledged write; keys are biased to many (16-40) so that every node owns some; a fifth of the executions additionally store 260-560 write-once ballast keys before the churn, so that hand-overs move hundreds of keys")
+	r.SetRule("same generator as C03 (independent seeds): executions of real rings (memory/AOF/SQLite) with single-writer clients and 1-3 churn goroutines; at quiescence (pointer oracle reached) every live node's RangeKeys(0,0) and ListKeys('') are read; a quarter of the executions also hold lease-only keys that expire (1 s TTL, real time) before a second churn phase moves their ranges; distinct+non-trivial = hash of the interleaving of membership hook events across nodes, and separately the set of kinds of membership operations whose windows overlapped ({join,leave} x {join,leave} x ring distance adjacent / one node between / farther, with or without a failed attempt), for executions with at least one completed join/leave and one acknowledged write; keys are biased to many (16-40) so that every node owns some; a fifth of the executions additionally store 260-560 write-once ballast keys before the churn, so that hand-overs move hundreds of keys")
 	r.Assume("ownership ranges are computed from the sorted ids of the live nodes after the pointer oracle has been reached")
 	rng := r.Rand("cases-c05")
 	n := r.Pick(24, 300)
